@@ -362,11 +362,11 @@ for es, P, PT in ((2, "pxe2", "PxE2"), (1, "pxe1", "PxE1")):
             H("c14_%s_from_p16_%d" % (P, N), "c14::%s::from_p16" % P, gen=str(N), unwind=34, timeout=300, tier=q, funcs=["%s<%d>::from_p16e1, From<P16E1>" % (PT, N)], space_bits=16, bound="every P16E1 pattern"),
             H("c14_%s_from_p8_%d" % (P, N), "c14::%s::from_p8" % P, gen=str(N), unwind=34, timeout=300, tier=q, funcs=["%s<%d>::from_p8e0, From<P8E0>" % (PT, N)], space_bits=8, bound="every P8E0 pattern"),
             H("c14_%s_from_f64_%d" % (P, N), "c14::%s::from_f64" % P, gen=str(N), unwind=48, timeout=3600, tier="thorough", funcs=["%s<%d>::from_f64, From<f64>" % (PT, N)], space_bits=62,
-              bound="every f64 with binary exponent in [-160,160], zeros, NaN, infinities (loop bound 48)"),
+              bound="every f64 with binary exponent in [-%d,%d], zeros, NaN, infinities (the scaling loops run |exponent| / 2^es times; unwind 48)" % ((160, 160) if P == "pxe2" else (90, 90))),
             H("c14_%s_from_f64_m3_%d" % (P, N), "c14::%s::from_f64_short" % P, gen="%d, 3" % N, unwind=48, timeout=1200, tier="quick" if N in (5, 12, 20, 27, 32) else "thorough", funcs=["%s<%d>::from_f64" % (PT, N)], space_bits=13,
-              bound="every f64 with binary exponent in [-160,160] whose mantissa has <= 3 significant bits (contains every power of two and the ties 1.5*2^e)"),
+              bound="every f64 with binary exponent in [-%d,%d] whose mantissa has <= 3 significant bits (contains every power of two and the ties 1.5*2^e)" % ((160, 160) if P == "pxe2" else (90, 90))),
             H("c14_%s_from_f32_%d" % (P, N), "c14::%s::from_f32" % P, gen=str(N), unwind=48, timeout=3600, tier="thorough", funcs=["%s<%d>::from_f32, From<f32>" % (PT, N)], space_bits=32,
-              bound="every normal f32, zeros, NaN, infinities"),
+              bound=("every normal f32 with binary exponent in [-126,127], zeros, NaN, infinities" if P == "pxe2" else "every f32 with binary exponent in [-90,90], zeros, NaN, infinities (loop bound)")),
             )
         if P == "pxe2":
             reg("C14",
